@@ -358,7 +358,15 @@ def check_trsbox_geometry(H, xbase, c, g, lower, upper, Delta, x, modname):
     slack = 1e-6 * best + 64 * EPS * (abs(c) + float(np.sum(np.abs(g))) * scale) + 1e-13 * float(np.sum(np.abs(g)))
     H.c13_geom_ratio = min(getattr(H, 'c13_geom_ratio', np.inf), (val / best) if best > 0 else 1.0)
     if val < best - slack:
-        H.flag_insitu('C13', 'geom_not_max', site, '|L(s)|=%.6e < max %.6e' % (val, best))
+        # is the shortfall explained by the routine's design constant?  Components with |g_i| < 1e-14 (ZERO_THRESH) are never
+        # stepped along; with Delta = 1e10 and |g| ~ 1e-13 ignoring one such component costs > 1e-6 relative.
+        g2 = np.where(np.abs(g) < 1e-14, 0.0, g)
+        best2 = max(abs(c + _linear_max_over_box_ball(g2, lo, hi, Delta)), abs(c - _linear_max_over_box_ball(-g2, lo, hi, Delta)))
+        if np.any(g2 != g) and val >= best2 - slack:
+            H.flag_insitu('C13', 'geom_not_max:zero_thresh', site, '|L(s)|=%.6e < max %.6e; equals the maximum %.6e over the components with |g_i| >= 1e-14 (Delta=%.3g, |g|=%.3g)' % (
+                val, best, best2, Delta, float(np.linalg.norm(g))))
+        else:
+            H.flag_insitu('C13', 'geom_not_max', site, '|L(s)|=%.6e < max %.6e' % (val, best))
     if val < abs(c) - slack:
         H.flag_insitu('C13', 'geom_worse_than_zero', site, '|L(s)|=%.6e < |c|=%.6e' % (val, abs(c)))
 
